@@ -318,7 +318,7 @@ type sreplay struct {
 // enum: event lines through the chain (one schedule), the HTTP route and forwarder mode
 
 var titles = []string{"t", "a|b", "x\\ny", "é"}
-var texts = []string{"", "x", "p|q", "l1\\nl2", "a\\nb\\nc"}
+var texts = []string{"", "x", "p|q", "l1\\nl2", "a\\nb\\nc", "\\nhead", "\\n"}
 var eattrs = []string{"d:12", "h:host", "k:key", "p:low", "p:normal", "s:src", "t:error", "t:warning", "t:success", "t:info", "#t1,t2:v", "#dup,env:test", "x:unk"}
 
 type bridge struct {
